@@ -7,24 +7,149 @@ import (
 	"fmt"
 	"sync"
 
+	goat "github.com/avos-io/goat"
 	"google.golang.org/grpc/stats"
 )
 
+// tagStats is a recording stats.Handler: TagRPC returns a context carrying a
+// fresh tag under a key of its own; every event is filed under the tag found
+// in its context (C20, stats part).
 type tagStats struct {
-	mu  sync.Mutex
-	evs []string
+	id       int
+	mu       sync.Mutex
+	next     int64
+	rpcs     map[int64][]string
+	untagged int
+	conn     []string
 }
 
-func (s *tagStats) TagRPC(ctx context.Context, _ *stats.RPCTagInfo) context.Context { return ctx }
-func (s *tagStats) HandleRPC(ctx context.Context, ev stats.RPCStats) {
+type tsKey struct {
+	id   int
+	conn bool
+}
+
+func newTagStats(id int) *tagStats { return &tagStats{id: id, rpcs: map[int64][]string{}} }
+
+func (s *tagStats) TagRPC(ctx context.Context, _ *stats.RPCTagInfo) context.Context {
 	s.mu.Lock()
 	defer s.mu.Unlock()
+	s.next++
+	s.rpcs[s.next] = []string{"TagRPC"}
+	return context.WithValue(ctx, tsKey{s.id, false}, s.next)
+}
+
+func (s *tagStats) HandleRPC(ctx context.Context, ev stats.RPCStats) {
+	var name string
 	switch e := ev.(type) {
+	case *stats.Begin:
+		name = "Begin"
+	case *stats.OutHeader:
+		name = "OutHeader"
+	case *stats.OutPayload:
+		name = "OutPayload"
+	case *stats.InHeader:
+		name = "InHeader"
+	case *stats.InPayload:
+		name = "InPayload"
+	case *stats.OutTrailer:
+		name = "OutTrailer"
 	case *stats.End:
-		s.evs = append(s.evs, fmt.Sprintf("End(%v)", e.Error))
+		name = fmt.Sprintf("(End %v)", e.Error == nil)
 	default:
-		s.evs = append(s.evs, fmt.Sprintf("%T", ev))
+		name = fmt.Sprintf("(* %T *) TagRPC", ev)
+	}
+	s.mu.Lock()
+	defer s.mu.Unlock()
+	tag, ok := ctx.Value(tsKey{s.id, false}).(int64)
+	if !ok {
+		s.untagged++
+		return
+	}
+	s.rpcs[tag] = append(s.rpcs[tag], name)
+}
+
+func (s *tagStats) TagConn(ctx context.Context, _ *stats.ConnTagInfo) context.Context {
+	s.mu.Lock()
+	defer s.mu.Unlock()
+	s.conn = append(s.conn, "TagConn")
+	return context.WithValue(ctx, tsKey{s.id, true}, int64(len(s.conn)))
+}
+
+func (s *tagStats) HandleConn(ctx context.Context, ev stats.ConnStats) {
+	_, tagged := ctx.Value(tsKey{s.id, true}).(int64)
+	s.mu.Lock()
+	defer s.mu.Unlock()
+	switch ev.(type) {
+	case *stats.ConnBegin:
+		s.conn = append(s.conn, fmt.Sprintf("ConnBegin %v", tagged))
+	case *stats.ConnEnd:
+		s.conn = append(s.conn, fmt.Sprintf("ConnEnd %v", tagged))
 	}
 }
-func (s *tagStats) TagConn(ctx context.Context, _ *stats.ConnTagInfo) context.Context { return ctx }
-func (s *tagStats) HandleConn(context.Context, stats.ConnStats)                       {}
+
+// events of RPC number n (1-based, in TagRPC order) and the number of events
+// that carried no tag or belong to another RPC than n
+func (s *tagStats) rpc(n int64) ([]string, int) {
+	s.mu.Lock()
+	defer s.mu.Unlock()
+	stray := s.untagged
+	for t, evs := range s.rpcs {
+		if t != n {
+			stray += len(evs)
+		}
+	}
+	return append([]string(nil), s.rpcs[n]...), stray
+}
+
+func (s *tagStats) connEvents() []string {
+	s.mu.Lock()
+	defer s.mu.Unlock()
+	var out []string
+	for _, e := range s.conn {
+		if e == "TagConn" {
+			out = append(out, e)
+		} else {
+			out = append(out, "("+e+")")
+		}
+	}
+	return out
+}
+
+func newStatsSet(n int) []*tagStats {
+	var hs []*tagStats
+	for i := 0; i < n; i++ {
+		hs = append(hs, newTagStats(i))
+	}
+	return hs
+}
+
+func dialStats(hs []*tagStats) []goat.DialOption {
+	var o []goat.DialOption
+	for _, h := range hs {
+		o = append(o, goat.WithStatsHandler(h))
+	}
+	return o
+}
+
+func serverStats(hs []*tagStats) []goat.ServerOption {
+	var o []goat.ServerOption
+	for _, h := range hs {
+		o = append(o, goat.StatsHandler(h))
+	}
+	return o
+}
+
+// emitStats writes one CStats case per handler for RPC number n of the scenario.
+func emitStats(em *Emitter, idx *int, kind string, desc map[string]any, tags []string, exit string, hs []*tagStats, n int64, finished, succ bool) {
+	for i, h := range hs {
+		evs, stray := h.rpc(n)
+		d := map[string]any{"h": i, "nh": len(hs)}
+		for k, v := range desc {
+			d[k] = v
+		}
+		em.Emit(Rec{Idx: *idx, Kind: kind, Desc: d, Obs: map[string]any{"events": evs, "stray": stray},
+			Tags: append(append([]string(nil), tags...), fmt.Sprintf("handlers=%d", len(hs))),
+			Coq: fmt.Sprintf("CStats %s %d %d %s %s %s %d", exit, len(hs), i, coqBool(finished), coqBool(succ), coqList(evs), stray)})
+		*idx++
+	}
+}
